@@ -477,3 +477,56 @@ def output_cols_fn(text):
 def cols_unit(text):
     return ("use vstd::prelude::*;\nuse std::collections::HashSet;\nverus! {\nbroadcast use vstd::std_specs::hash::group_hash_axioms;\n"
             + enum_text(text).replace("#[derive(Clone, Copy)]", "#[derive(Clone, Copy, PartialEq, Eq, Structural)]") + COLS_MODEL + output_cols_fn(text) + vlib.verus_canary("canary_cols", "x: u64", []) + "\n} // verus!\nfn main() {}\n")
+
+
+# ---------------------------------------------------------------------------------------------------------------------
+# selecting ONE table row by a scalar index: TableAccessScalarF::solve
+SCALAR_ROW_MODEL = """
+#[derive(Clone, Copy, PartialEq, Eq, Structural)]
+pub struct Value { pub id: u64 }
+impl Value { pub fn clone(&self) -> (r: Value) ensures r == *self, { *self } }
+pub open spec fn in_rows(ix: usize, len: usize) -> bool { 1 <= ix && ix <= len }      // a 1-based row index that addresses a row
+pub struct Column { pub len: usize, pub id: u64 }
+pub uninterp spec fn elem(col: u64, row: usize) -> Value;       // the element at a 1-based position of a column
+impl Column {
+  // Matrix::index1d(ix): 1-based; a position outside 1..=len panics (modelled as None: a panic inside a kernel is an error of the statement)
+  #[verifier::external_body]
+  pub fn index1d(&self, ix: usize) -> (r: Option<Value>) ensures in_rows(ix, self.len) ==> r == Some(elem(self.id, ix)), !in_rows(ix, self.len) ==> r is None, { unimplemented!() }
+}
+pub struct ColEntry { pub key: u64, pub kind: u64, pub matrix: Column }      // one (key, (kind, matrix)) entry of the IndexMap
+pub struct MechTable { pub data: Vec<ColEntry> }
+pub struct MechRecord { pub data: HashMap<u64, Value> }
+"""
+
+
+def scalar_row_fn(text):
+    """`TableAccessScalarF::solve` (src/interpreter/src/stdlib/access/table.rs), whole body: `self.source.borrow()` / `self.out.borrow_mut()` / `*self.ix.borrow()` -> the parameters `table`,
+    `record`, `row_ix`; `for (key, (kind, matrix)) in table.data.iter() {` -> index loop; `matrix.index1d(i)` -> `matrix.index1d(i)?` (its panic is an early None)"""
+    m = find_code(text, r"impl\s+MechFunctionImpl\s+for\s+TableAccessScalarF\s*\{")
+    if not m:
+        raise AnchorLost("impl MechFunctionImpl for TableAccessScalarF not found")
+    sig, body = extract_fn(text[m.start():match_brace(text, m.end() - 1)], "solve")
+    b = re.sub(r"//[^\n]*", "", body[body.index("{") + 1:body.rindex("}")]).replace("\r", "")
+    b, n1 = re.subn(r"let\s+table\s*=\s*self\.source\.borrow\(\)\s*;", "", b)
+    b, n2 = re.subn(r"let\s+mut\s+record\s*=\s*self\.out\.borrow_mut\(\)\s*;", "", b)
+    b, n3 = re.subn(r"let\s+row_ix\s*=\s*\*self\.ix\.borrow\(\)\s*;", "", b)
+    INV = ("    invariant forall|a: int, b: int| 0 <= a < b < table.data@.len() ==> table.data@[a].key != table.data@[b].key,\n"
+           "      forall|k: int| 0 <= k < i_ ==> in_rows(row_ix, (#[trigger] table.data@[k]).matrix.len) && record.data@.contains_key(table.data@[k].key)\n"
+           "          && record.data@[table.data@[k].key] == elem(table.data@[k].matrix.id, row_ix),\n")
+    b, n4 = re.subn(r"for\s+\(\s*key\s*,\s*\(\s*kind\s*,\s*matrix\s*\)\s*\)\s+in\s+table\.data\.iter\(\)\s*\{", "for i_ in 0..table.data.len()\n" + INV + "  {\n      let key = &table.data[i_].key; let matrix = &table.data[i_].matrix;", b)
+    b, n5 = re.subn(r"\bmatrix\.index1d\(\s*row_ix\s*\)", "matrix.index1d(row_ix)?", b)
+    if (n1, n2, n3, n4, n5) != (1, 1, 1, 1, 1) or "self." in b:
+        raise AnchorLost("TableAccessScalarF::solve: statements outside the transcription rules %r" % ((n1, n2, n3, n4, n5),))
+    return ("fn table_row_by_scalar_index(table: &MechTable, record: &mut MechRecord, row_ix: usize) -> (res: Option<()>)\n"
+            "  requires forall|a: int, b: int| 0 <= a < b < table.data@.len() ==> table.data@[a].key != table.data@[b].key,      // column ids are distinct (IndexMap keys)\n"
+            "  ensures\n"
+            "    // a row that exists in every column: the record holds, for every column, the element of THAT row\n"
+            "    res is Some ==> forall|k: int| 0 <= k < table.data@.len() ==> in_rows(row_ix, (#[trigger] table.data@[k]).matrix.len) && final(record).data@.contains_key(table.data@[k].key)\n"
+            "        && final(record).data@[table.data@[k].key] == elem(table.data@[k].matrix.id, row_ix),\n"
+            "    // a row index that addresses no row (0 or beyond the last row) of some column is an error\n"
+            "    (forall|k: int| 0 <= k < table.data@.len() ==> in_rows(row_ix, (#[trigger] table.data@[k]).matrix.len)) ==> res is Some,\n{\n" + b + "\n  Some(())\n}\n")
+
+
+def scalar_row_unit(text):
+    return ("use vstd::prelude::*;\nuse std::collections::HashMap;\nverus! {\nbroadcast use vstd::std_specs::hash::group_hash_axioms;\n"
+            + SCALAR_ROW_MODEL + scalar_row_fn(text) + vlib.verus_canary("canary_scalar_row", "x: u64", []) + "\n} // verus!\nfn main() {}\n")
